@@ -70,6 +70,23 @@ CHECKS = {
             "Miri sub-check uses proc-macro2 1.0.106 instead of 1.0.51 (nightly cannot build the latter).", "3/C20"),
 }
 
+# additions of the fourth round (DESIGN.md sections 9.6 / 9.7)
+EXTRA = {
+    "C01": " Invocations stand in different item / expression contexts (generic fn, closure, method, trait default method, argument position, absolute path, with and without an expected type), corpora of odd seeds are edition-2021 crates; collect types also as bare aliases, `Option<Vec>` / `Result<Vec>` worlds so that `<|`, `<=`, `!>`, `<<<` follow a collect.",
+    "C02": " Every wrapper that can be empty is forced with an empty inner chain (also `=> >>>` on nested options / results / try-futures of try-futures and `?|> >>>` on iterators of options / streams of option-futures).",
+    "C07": " The comparison also runs under panic (+ failure) plans for the sequential and thread kinds ('same result' includes 'both panic'), and in a crate that knows the library only under another name (renamed dependency, decoy `join` module, forbid(unsafe_code), deny(warnings)).",
+    "C08": " 'The caller continues' covers the next step as well as the code after the macro: no step-k+1 event before the last chain event of a step-k thread or while a step-k gate is held; gated runs also under single-failure plans of the try kinds.",
+    "C09": " In the task kinds the future is created in turn inside the polling runtime, in plain synchronous code, and inside the context of another idle runtime; it is always polled on the harness runtime.",
+    "C11": " Captures also together with custom joiners (eager and lazy branches) and in the large-index programs of the big corpus (capture sequence over one- and two-digit positions).",
+    "C12": " `let mut` names are observed through `&mut`; names also together with custom joiners and lazy branches.",
+    "C13": " Handlers (and operands) are also forwarded as `$e:expr` fragments of a user macro_rules (None-delimited groups).",
+    "C14": " The same structures are also parsed with operands as None-delimited groups (macro_rules fragments).",
+    "C16": " Joiners are also written as function path, generic path, `receiver.method`, method on a call result, parenthesized closure and call expression (sync kinds, arity 2).",
+    "C17": " Nested thread-spawning macros meet at a rendezvous (their branches must be alive together although nested); a 6- / 11-branch inner macro is nested in operand position of the outer kinds.",
+    "C19": " The bounds programs also come in wide (5 / 8 / 12-branch) forms.",
+    "C20": " Rejected inputs count as invocations: their complete diagnostics are compared, including inputs with several different mistakes at once.",
+}
+
 NOT_YET = "check not built yet (framework under construction; see DESIGN.md section 8)"
 
 checks = []
@@ -78,6 +95,7 @@ for p in props:
     pid = p["id"]
     if pid in CHECKS:
         eng, cat, tech, text, note, ref = CHECKS[pid]
+        text += EXTRA.get(pid, "")
         if pid in ("C03", "C08", "C09", "C10", "C18"):
             text += " Thorough tier additionally interprets the same workload on a handful of small programs under Miri, one process per Miri seed (different deterministic preemptive schedules), so undefined behaviour, data races and leaks in anything the runs reach are reported by the interpreter."
         checks.append({
@@ -114,7 +132,7 @@ m = {
     ],
     "checks": checks,
     "not_applicable": na,
-    "notes": "Six genuine defects were repaired by fix: commits in /repo (12857a3 C05, adad8bc C15, d8b5a10 C14, afb8dd7 C01, d743b69 C15/C16, fb5f9af C15); one more is recorded as a known finding (C15: a C-string literal operand makes the macro panic inside syn 1); see KNOWN_FINDINGS.txt and DESIGN.md section 5.",
+    "notes": "Eight genuine defects were repaired by fix: commits in /repo (12857a3 C05, adad8bc C15, d8b5a10 C14, afb8dd7 C01, d743b69 C15/C16, fb5f9af C15, 1cc49f7 C15, 8762e98 C14); one more is recorded as a known finding (C15: a C-string literal operand makes the macro panic inside syn 1); see KNOWN_FINDINGS.txt and DESIGN.md section 5.",
 }
 json.dump(m, open(os.path.join(ROOT, "MANIFEST.json"), "w"), indent=1)
 print("checks=%d not_applicable=%d" % (len(checks), len(na)))
